@@ -85,7 +85,7 @@ const failKey = "a/x"
 // ---------- operations ----------
 
 type op struct {
-	Kind  string `json:"kind"` // sub subq cancel hook hookq hooko unhook put del sec setv get push
+	Kind  string `json:"kind"` // sub subq cancel hook hookq hooko unhook put putnew del sec setv get push
 	Q     int    `json:"q,omitempty"`
 	Priv  int    `json:"priv,omitempty"`
 	Ref   int    `json:"ref,omitempty"`
@@ -116,6 +116,8 @@ func (o op) String() string {
 		return fmt.Sprintf("cancelHook(h%d)", o.Ref)
 	case "put":
 		return fmt.Sprintf("put[%s](%s,V=%d,%s)", ifaceDefs[o.W].Name, o.Key, o.V, flagNames[o.Flag])
+	case "putnew":
+		return fmt.Sprintf("PutNew[%s](%s,V=%d,%s)", ifaceDefs[o.W].Name, o.Key, o.V, flagNames[o.Flag])
 	case "del":
 		return fmt.Sprintf("delete[%s](%s)", ifaceDefs[o.W].Name, o.Key)
 	case "get":
@@ -161,6 +163,7 @@ type bounds struct {
 	pushDeleted      bool
 	fullIfaces       []int // further interfaces that get the whole put/delete alphabet (index 0 of ifaces always does)
 	noNewHooks       bool  // family with hooks given by the seed only
+	putNew           bool  // PutNew next to Put (all flag values, set on the record itself)
 }
 
 type witness struct {
@@ -426,7 +429,8 @@ func (m *model) apply(o op) *expect {
 			x.res = "ok"
 			x.get = cur.snap(o.Key)
 		}
-	case "put":
+	case "put", "putnew":
+		// PutNew resets the timestamps of the record; the flags set on the record stay
 		w := ifaceDefs[o.W]
 		if !(w.Local && w.Internal) {
 			// the interface first looks at the stored record's metadata
@@ -525,6 +529,16 @@ func (m *model) enabled(b *bounds) []op {
 	}
 	for _, k := range keys {
 		out = append(out, op{Kind: "del", W: w0, Key: k})
+	}
+	if b.putNew {
+		for _, k := range keys {
+			for f := 0; f < b.nFlag; f++ {
+				out = append(out, op{Kind: "putnew", W: w0, Key: k, V: 1, Flag: f})
+			}
+		}
+		for _, w := range b.ifaces[1:] {
+			out = append(out, op{Kind: "putnew", W: w, Key: keys[0], V: 1})
+		}
 	}
 	for _, w := range b.fullIfaces {
 		for _, k := range keys {
@@ -898,6 +912,8 @@ func (w *world) do(o op) (ob observed) {
 		}
 	case "put":
 		ob.err = w.ifaces[o.W].Put(w.newRec(o.Key, o.V, o.Flag, false))
+	case "putnew":
+		ob.err = w.ifaces[o.W].PutNew(w.newRec(o.Key, o.V, o.Flag, false))
 	case "del":
 		ob.err = w.ifaces[o.W].Delete(w.name + ":" + o.Key)
 	case "sec":
@@ -1256,7 +1272,7 @@ func runHistory(ctx *vlib.Ctx, cfg config, seedName string, hist []op, verbose b
 			c.Violate("veto-returns-hook-error", hookSite, "veto-without-vetoing-hook", fmt.Sprintf("%v: returned %v although no hook vetoes this operation", where, ob.err), wit(step))
 			res.bad = true
 		case x.res == "ok" && ob.err != nil, x.res == "err" && ob.err == nil:
-			if o.Kind != "get" && o.Kind != "put" && o.Kind != "del" && o.Kind != "sec" && o.Kind != "setv" {
+			if o.Kind != "get" && o.Kind != "put" && o.Kind != "putnew" && o.Kind != "del" && o.Kind != "sec" && o.Kind != "setv" {
 				c.Violate("subscribe-cancel-register-succeed", o.Kind, "error-instead-of-ok", fmt.Sprintf("%v: returned %v", where, ob.err), wit(step))
 				res.bad = true
 				break
@@ -1550,6 +1566,7 @@ func plans(c *vlib.Ctx) []plan {
 	// delivery clause, and the order of three hooks after a cancel
 	matrix := mk([]string{"a/1"}, 1, 4, 4, 4, 0, []int{0}, false, true)
 	matrix.fullIfaces = []int{2, 4}
+	matrix.putNew = true
 	order := mk([]string{"a/1"}, 1, 1, 1, 1, 3, []int{0, 1}, false, false)
 	order.noNewHooks = true
 	fam := []plan{
@@ -1574,6 +1591,7 @@ func plans(c *vlib.Ctx) []plan {
 	big := mk([]string{"a/1", "b/1", "a/2"}, 3, 4, 4, 3, 2, []int{0, 1, 2, 3}, true, true)
 	small := mk([]string{"a/1", "b/1"}, 2, 2, 2, 2, 2, []int{0, 1}, false, false)
 	inj := mk([]string{"a/1", "b/1", failKey}, 3, 4, 4, 3, 2, []int{0, 1, 2, 3}, true, true)
+	big.putNew, inj.putNew = true, true
 	order3 := *order
 	orderDeep := []plan{
 		{config{"hashmap", true}, 3, &order3, "three hooks, cancel one", hookOrderSeeds()},
@@ -1604,7 +1622,7 @@ func main() {
 		}
 		defer os.RemoveAll(rootDir)
 		c.Rule("BFS over histories of {subscribe(query, subscriber privileges), subscribe(reusing the query object of s0), cancel(s_i), registerHook(query, phase, pass|replace|veto), registerHook(reusing the query object of h0), registerHook(reusing the Hook object of h0 with another query), cancelHook(h_i), " +
-			"put/delete/MakeSecret/InsertValue/get through interfaces of different privileges, PushUpdate (injected database)} on keys inside/outside the subscribed prefix with values for which the where-condition holds or not and flags none/secret(/crownjewel); " +
+			"put/PutNew(matrix family, thorough)/delete/MakeSecret/InsertValue/get through interfaces of different privileges, PushUpdate (injected database)} on keys inside/outside the subscribed prefix with values for which the where-condition holds or not and flags none/secret(/crownjewel); " +
 			"each history replayed on a fresh real database (hashmap, bbolt, runtime registry injected) and on a reference (lists of subscriptions and hooks, map of records); after every step feeds are drained, hook calls, result and raw storage compared; " +
 			"states de-duplicated on (reference state, controller's registered subscriptions and hooks, raw storage); deepest level check-only and without subscribe/registerHook as last step (nothing to observe); " +
 			"plus two dedicated families: the complete matrix flags {none,secret,crownjewel,both} x subscriber privileges {LI,L-,-I,--} x writers {LI, LI+AlwaysMakeSecret, LI+AlwaysMakeSecret+AlwaysMakeCrownjewel, PushUpdate} (depth 2 from four subscriptions), and every triple of 7 hook kinds registered on one prefix followed by cancelHook and a read or write (order of the remaining hooks); " +
